@@ -221,21 +221,26 @@ def e2e_job(job):
         out["ncalls"] = len(calls)
         out["ops"] = e2e.op_histogram(m)
         out["shape"] = shape_of(m)
-        vr = v8.run(b, calls, imp, mem_hash=True, module=m)
+        mv, bv = m, b
+        if len(m.all_mems()) > 1:
+            mv = single_memory_variant(m)
+            bv = encode(mv)
+            out["v8_reference"] = "single-memory-variant"
+        vr = v8.run(bv, calls, imp, mem_hash=True, module=mv)
         out["truncated_at"] = None
         for k, r in enumerate(vr.results):
             if r[0] == "trap" and r[1] in e2e.V8_ONLY_TRAPS:
                 # w2c2 does no bounds/signature checks: the call is outside the properties; run the script up to it
                 out["truncated_at"] = (k, r[1])
                 calls = calls[:k]
-                vr = v8.run(b, calls, imp, mem_hash=True, module=m)
+                vr = v8.run(bv, calls, imp, mem_hash=True, module=mv)
                 break
         if job.get("sim"):
             out["sim_calls_before_truncation"] = len(calls)
             plan = sim_script(m, exports, calls, vr.results)
             if plan["start"] != "skip" and plan["keep"] < len(calls):
                 calls = calls[:plan["keep"]]
-                vr = v8.run(b, calls, imp, mem_hash=True, module=m)
+                vr = v8.run(bv, calls, imp, mem_hash=True, module=mv)
             out["sim_plan"] = plan
         out["ncalls"] = len(calls)
         out["calls_made"] = [[n.decode("latin-1"), [[t, b] for t, b in a]] for n, a in calls]
@@ -243,7 +248,7 @@ def e2e_job(job):
         out["v8_traps"] = sum(1 for r in vr.results if r[0] == "trap")
         v0 = None
         if job.get("init_dump"):
-            v0 = v8.run(b, [], imp, mem_hash=True, module=m)
+            v0 = v8.run(bv, [], imp, mem_hash=True, module=mv)
             out["v8_init"] = v8_dict(v0)
         name = "m" + re.sub(r"\W", "_", spec_id(spec))[-40:] + "_%d" % os.getpid()
         tr = e2e.translate(w2c2, work, name, b, tuple(job.get("opts", ())) + tuple(spec.get("w2c2_opts", ())))
@@ -288,9 +293,24 @@ def e2e_job(job):
                     if not any(b"\x00" in bytes.fromhex(x[1]) for x in want):
                         got = rr.func_exports
                         ok = got is not None and got["terminated"] and len(got["rows"]) == len(want) and all(
-                            g[1] == w_[1] and (g[0] == w_[0] or _same_c_function(m, g[0], w_[0])) for g, w_ in zip(got["rows"], want))
+                            g[1] == w_[1] and (g[0] == w_[0] or _same_c_function(m, g[0], w_[0])) for g, w_ in zip(got["rows"], want))       # (incl. a repeated import)
                         if not ok:
                             ent.setdefault("init_diffs", []).append({"kind": "func-exports-table", "real": got, "spec": want})
+                for ordn, me in sorted(rr.mem_exports.items()):
+                    # every exported memory through its `<module>_<name>` accessor: the instance's memory of the export's index
+                    bad_ = None
+                    if not me["same_object"]:
+                        bad_ = "the accessor does not return the instance's memory %d" % me["index"]
+                    elif me["index"] == 0 and rr.mem is not None and (me["pages"] != rr.mem["pages"] or me["sha256"] != rr.mem["sha256"]):
+                        bad_ = "memory 0 read through the accessor differs from the instance's memory 0"
+                    elif me["index"] > 0:
+                        import hashlib
+                        pg, data_ = expected_memory_k(m, imp, me["index"])
+                        if me["pages"] != pg or me["sha256"] != hashlib.sha256(data_).hexdigest():
+                            bad_ = "memory %d read through the accessor is not the declared minimum of zero pages with its data segments" % me["index"]
+                    if bad_:
+                        ent.setdefault("init_diffs", []).append({"kind": "memory-export-accessor", "export": ordn, "real": dict(me, bytes=None, why=bad_),
+                                                                 "spec": "memory %d of the instance" % me["index"]})
                 if any(v is False for v in rr.bound.values()):
                     ent.setdefault("init_diffs", []).append({"kind": "import-not-bound", "real": rr.bound})
                 if rr.mem_accessor_ok is False:
@@ -320,6 +340,49 @@ def _same_c_function(m, f, g):
     """function indices f, g denote imports of the same (module, field): one C function"""
     imps = [i for i in m.imports if i.kind == "func"]
     return f < len(imps) and g < len(imps) and (bytes(imps[f].module), bytes(imps[f].field)) == (bytes(imps[g].module), bytes(imps[g].field))
+
+
+def single_memory_variant(m):
+    """This V8 accepts one memory per module.  The code of a w2c2-supported module only addresses memory 0, so its behaviour is that of
+    the same module WITHOUT its other memories, their data segments and their exports: the V8 reference for modules with several
+    memories (the other memories are judged against the independent statement `expected_memory_k`).  Only for modules without
+    memory.init / data.drop (data segment indices would shift)."""
+    import copy
+    r = copy.deepcopy(m)
+    n_mi = sum(1 for i in r.imports if i.kind == "memory")
+    keep_imp = 0
+    imps = []
+    for i in r.imports:
+        if i.kind == "memory":
+            keep_imp += 1
+            if keep_imp > 1:
+                continue
+        imps.append(i)
+    r.imports = imps
+    r.mems = [] if n_mi else r.mems[:1]
+    r.datas = [d for d in r.datas if d.mode != "active" or (d.memory or 0) == 0]
+    r.exports = [e for e in r.exports if not (e.kind == "memory" and e.index != 0)]
+    if r.datacount is not None:
+        r.datacount = len(r.datas)
+    return r
+
+
+def expected_memory_k(m, imp, k):
+    """(pages, bytes) of memory k right after instantiation (no start function): declared minimum, zero, the embedder's pre-fill of an
+    imported memory, then the active data segments of memory k in order"""
+    mems = m.all_mems()
+    data = bytearray(mems[k].min * 65536)
+    mimp = [n for n, i in enumerate(m.imports) if i.kind == "memory"]
+    mf = (imp or {}).get("mem_fill") or {}
+    if k < len(mimp):
+        for off, hx in (mf.get(mimp[k], mf.get(str(mimp[k]))) or []):
+            data[int(off):int(off) + len(hx) // 2] = bytes.fromhex(hx)
+    for seg in m.datas:
+        if seg.mode == "active" and (seg.memory or 0) == k:
+            off = e2e.const_value(m, seg.offset, imp) & 0xFFFFFFFF
+            if off + len(seg.data) <= len(data):
+                data[off:off + len(seg.data)] = seg.data
+    return mems[k].min, bytes(data)
 
 
 def shape_of(m):
@@ -426,28 +489,30 @@ def family_reference_modules(m):
 
 
 def family(repo, work, w2c2, m, calls, imp, tr, build, spec, cap=12):
-    """Interleaved history on four live instances of ONE module: 0 = A (<module>Instantiate), 1 = B = A's common.newChild(A) made AFTER
-    A's first calls, 2 = C (<module>Instantiate, independent), 3 = D = C's common.newChild(C) made before any call.  Every instance is
+    """Interleaved history on five live instances of ONE module: 0 = A (<module>Instantiate), 1 = B = A's common.newChild(A) made AFTER
+    A's first calls, 2 = C (<module>Instantiate, independent), 3 = D = C's common.newChild(C) made before any call, 4 = E (independent;
+    after the last call it is released with <module>FreeInstance and instantiated again: the new instance is judged against the
+    independent statement of the initial state).  Every instance is
     compared with the corresponding V8 instance of `v8.run_family` (results, host trace, final memory, exported globals); the dumps
     taken around each NewChild are judged against independent statements: the parent's globals / table / (unshared) memory are the same
     before and after, a child's defined globals equal their initialisers, its table is the element segments applied in order, a defined
     memory is the parent's object iff it is declared shared."""
     rng = random.Random("%s:family" % spec_id(spec))
     cs = list(calls[:cap])
-    q = [[(k, n, v) for n, v in cs] for k in range(4)]
+    q = [[(k, n, v) for n, v in cs] for k in range(4)] + [[(4, n, v) for n, v in cs[:4]]]
     n0 = max(1, len(cs) // 3) if cs else 0
     script = q[0][:n0]
     q[0] = q[0][n0:]
     at = len(script)
     while any(q):
-        k = rng.choice([j for j in range(4) if q[j]])
+        k = rng.choice([j for j in range(5) if q[j]])
         script.append(q[k].pop(0))
     ref, childmod, note = family_reference_modules(m)
     out = {"diffs": [], "script_len": len(script), "order": "".join(str(x[0]) for x in script)[:100], "reference": note, "child_created_at": at,
            "compared_calls": 0, "skipped": None}
 
     def plan_for(a):
-        pl = [{"kind": "new"}, {"kind": "child", "parent": 0, "at": a}, {"kind": "new"}, {"kind": "child", "parent": 2, "at": 0}]
+        pl = [{"kind": "new"}, {"kind": "child", "parent": 0, "at": a}, {"kind": "new"}, {"kind": "child", "parent": 2, "at": 0}, {"kind": "new"}]
         if childmod is not None:
             for p_ in pl:
                 if p_["kind"] == "child":
@@ -459,7 +524,7 @@ def family(repo, work, w2c2, m, calls, imp, tr, build, spec, cap=12):
         out["skipped"] = "V8 instantiation: %r" % ([v.instantiate for v in vs],)
         return out
     # w2c2 emits no bounds / signature checks: the script ends before the first call on which V8 raises such a trap
-    pos = [0] * 4
+    pos = [0] * 5
     cut = None
     for j, (k, n, a) in enumerate(script):
         r = vs[k].results[pos[k]] if pos[k] < len(vs[k].results) else None
@@ -473,8 +538,8 @@ def family(repo, work, w2c2, m, calls, imp, tr, build, spec, cap=12):
         out["truncated_at"] = cut
         vs = v8.run_family(refb, plan_for(at), script, imp, module=ref)
     cc, copts, san = build
-    rs = e2e.run_real_multi(repo, work, w2c2, m, script, imp, instances=4, cc=cc, copts=tuple(copts), sanitize=san, translated=tr,
-                            children={1: (0, at), 3: (2, 0)}, init_dump=True, keep_mem=True)
+    rs = e2e.run_real_multi(repo, work, w2c2, m, script, imp, instances=5, cc=cc, copts=tuple(copts), sanitize=san, translated=tr,
+                            children={1: (0, at), 3: (2, 0)}, init_dump=True, keep_mem=True, reinst=[4])
     float_stores = any(i.op in FLOAT_STORES for f in m.funcs for i in _walk(f.body))
     for k, (r, v) in enumerate(zip(rs, vs)):
         if r.instantiate[0] == "skip" and v.instantiate[0] == "skip":
@@ -484,10 +549,11 @@ def family(repo, work, w2c2, m, calls, imp, tr, build, spec, cap=12):
             return out
         # host calls are compared family-wide below: V8's per-instance logs attribute a call to the instance whose closure ran, and a
         # child's element segments put ITS closures into a table it shares with the parent
-        diffs, info = e2e.compare(r, v, what=("instantiate", "results", "mem", "globals"))
+        # (E's final state is that of its SECOND instantiation: only its calls are compared with V8)
+        diffs, info = e2e.compare(r, v, what=("instantiate", "results", "mem", "globals") if k != 4 else ("instantiate", "results"))
         out["compared_calls"] += info["compared_calls"]
         if not r.host_inst_ok:
-            out["diffs"].append({"kind": "family-host_instance", "instance": k, "role": "ABCD"[k],
+            out["diffs"].append({"kind": "family-host_instance", "instance": k, "role": "ABCDE"[k],
                                  "real": "an imported function did not receive the calling instance", "v8": None})
         diffs, ndrop = nan_leak_filter(spec, [[n_.decode("latin-1") if isinstance(n_, bytes) else n_, a_] for n_, a_ in cs], diffs)
         if ndrop:
@@ -496,9 +562,9 @@ def family(repo, work, w2c2, m, calls, imp, tr, build, spec, cap=12):
             if d["kind"] == "memory" and float_stores:
                 out["memory_hash_not_compared_float_stores"] = True       # NaN payloads of stored arithmetic results are left open
                 continue
-            out["diffs"].append(dict(d, kind="family-" + d["kind"], instance=k, role="ABCD"[k]))
+            out["diffs"].append(dict(d, kind="family-" + d["kind"], instance=k, role="ABCDE"[k]))
         if any(x is False for x in r.bound.values()):
-            out["diffs"].append({"kind": "family-import-not-bound", "instance": k, "role": "ABCD"[k], "real": r.bound})
+            out["diffs"].append({"kind": "family-import-not-bound", "instance": k, "role": "ABCDE"[k], "real": r.bound})
     # a crash of the program ends every later call: report the crash, not the calls that could not run after it
     if any(dd["kind"] == "family-result" and dd["real"][0] in ("ub", "crash", "timeout") for dd in out["diffs"]):
         out["diffs"] = [dd for dd in out["diffs"] if not (dd["kind"] == "family-result" and dd["real"][0] == "missing")]
@@ -508,6 +574,8 @@ def family(repo, work, w2c2, m, calls, imp, tr, build, spec, cap=12):
     seq = []
     for k, r in enumerate(rs):
         for n_, (cn, ent) in enumerate(zip(r.host_calls, r.host_log)):
+            if cn == -2:            # the start function run by E's SECOND instantiation (no V8 counterpart)
+                continue
             key = (cn, 0, n_) if cn >= 0 else ((created_at[k] - 0.5, k, n_) if k in created_at else (-1, k, n_))
             seq.append((key, ent))
     seq = [ent for key, ent in sorted(seq, key=lambda x: x[0])]
@@ -525,6 +593,30 @@ def family(repo, work, w2c2, m, calls, imp, tr, build, spec, cap=12):
                 else:
                     out["diffs"].append({"kind": "family-host_log", "entry": n_, "real": a_, "v8": b_, "role": "all"})
                 break
+    # E was released (<module>FreeInstance) and instantiated again in the same process: the new instance, built from recycled heap
+    # chunks, must be in the initial state again (table = element segments over NULL slots, defined globals = initialisers, a defined
+    # memory = zero pages + data segments)
+    rd = rs[4].reinst_dump if len(rs) > 4 else None
+    if rd is not None:
+        out["reinstantiated"] = True
+        exp_t = e2e.expected_table(m, imp)
+        if exp_t is not None and rd["table"] is not None and exp_t != rd["table"]:
+            out["diffs"].append({"kind": "reinstantiated-table", "instance": 4, "role": "E", "real": rd["table"], "spec": exp_t})
+        if m.start is None:
+            ngi_ = sum(1 for i in m.imports if i.kind == "global")
+            for g_k, g in enumerate(m.globals):
+                want = e2e.const_value(m, g.init, imp)
+                wd = 32 if g.type.valtype in (A.I32, A.F32) else 64
+                got = rd["all_globals"].get(ngi_ + g_k)
+                if got is not None and got[1] != want & ((1 << wd) - 1) and not e2e.is_nan(got[0], got[1]):
+                    out["diffs"].append({"kind": "reinstantiated-global", "instance": 4, "role": "E", "index": ngi_ + g_k, "real": got, "spec": want & ((1 << wd) - 1)})
+                    break
+            if m.mems and not any(i.kind == "memory" for i in m.imports) and rd.get("mem_bytes") is not None:
+                pg, data_ = expected_memory_k(m, imp, 0)
+                if rd["mem"]["pages"] != pg or rd["mem_bytes"] != data_:
+                    k0 = next((i for i in range(min(len(data_), len(rd["mem_bytes"]))) if data_[i] != rd["mem_bytes"][i]), None)
+                    out["diffs"].append({"kind": "reinstantiated-memory", "instance": 4, "role": "E", "real": {"pages": rd["mem"]["pages"], "first_diff": k0},
+                                         "spec": {"pages": pg}})
     # the dumps around each NewChild
     n_gi = sum(1 for i in m.imports if i.kind == "global")
     n_mi = sum(1 for i in m.imports if i.kind == "memory")
@@ -641,12 +733,18 @@ def nan_only_diff(a, b):
 
 
 def v8_mem_bytes(m, b, calls, imp, n):
+    if len(m.all_mems()) > 1:
+        m = single_memory_variant(m)
+        b = encode(m)
     v = v8.session().run(b, calls, imp, mem_hash=True, module=m, mem_dump=n)
     return bytes.fromhex(v.mem.get("hex", "")) if v.mem else b""
 
 
 def mem_diag(m, b, calls, imp, rr):
     """First differing byte between the real memory and V8's."""
+    if len(m.all_mems()) > 1:
+        m = single_memory_variant(m)
+        b = encode(m)
     n = len(rr.mem_bytes)
     v = v8.session().run(b, calls, imp, mem_hash=True, module=m, mem_dump=n)
     vb = bytes.fromhex(v.mem.get("hex", "")) if v.mem else b""
@@ -1129,7 +1227,7 @@ def sim_tie(env, results, driver_ok=True, window=4096):
             if a.startswith("tbl"):
                 mt = [None if x == "-" else int(x) for x in a[4:].split(",")] if a[4:] else []
                 out["tables_compared"] += 1
-                if mt != list(real["table"]):
+                if e2e.canon_table(m, mt) != list(real["table"]):
                     bad("E elem (Model.initTable) vs table of the real instance", model=mt, real=real["table"])
             else:
                 bad("E elem", model=a[:200])
